@@ -119,12 +119,25 @@ closure("DatetimeTimestampProvider._make_loader.<locals>.datetime_timestamp_load
          "value": "implies(returned, py(lambda d, r, z: same(r, datetime.fromtimestamp(d, tz=z)), data, result, tz))"},
         native=lambda mod, label: mod.DatetimeTimestampProvider({"utc": timezone.utc, "local": None}[label])._make_loader())
 
-closure("DateTimestampProvider._make_loader.<locals>.date_timestamp_loader", "DateTimestampProvider._make_loader",
-        {"": lambda m: m.DateTimestampProvider()},
-        {**COMMON_RAISE,
-         "accept-iff": "returned == py(lambda d: d is not None and ctor_ok(date.fromtimestamp, d), data)",
-         "value": "implies(returned, py(lambda d, r: same(r, date.fromtimestamp(d)), data, result))"},
-        native=lambda mod, label: mod.DateTimestampProvider()._make_loader())
+def utc_date(ts):
+    """the calendar date (UTC) of a UNIX timestamp.  `date_by_timestamp` dumps a date as the timestamp of its UTC midnight, so this
+    is the one reading of "date from UNIX timestamp" under which load(dump(x)) == x can hold in every process time zone (C01);
+    the dumper's `inverse` clause below is stated with the same function."""
+    return datetime.fromtimestamp(ts, tz=timezone.utc).date()
+
+
+# the process time zone is part of what the properties quantify over: dates and naive datetimes are converted through local time
+TZ_AXIS = {"tz-default": None, "tz-west5": {"TZ": "VRF5"}, "tz-east9": {"TZ": "VRF-9"}}
+for _tzl, _env in TZ_AXIS.items():
+    closure("DateTimestampProvider._make_loader.<locals>.date_timestamp_loader", "DateTimestampProvider._make_loader",
+            {_tzl: lambda m: m.DateTimestampProvider()},
+            {**COMMON_RAISE,
+             "accept-iff": "returned == py(lambda d: d is not None and ctor_ok(utc_date, d), data)",
+             "value": "implies(returned, py(lambda d, r: same(r, utc_date(d)), data, result))"},
+            props=("C02", "C04", "C05", "C06", "C20", "C01"),
+            name=f"{F}:DateTimestampProvider._make_loader.<locals>.date_timestamp_loader[{_tzl}]",
+            consts={"utc_date": utc_date}, env=_env,
+            native=lambda mod, label: mod.DateTimestampProvider()._make_loader())
 
 closure("SecondsTimedeltaProvider._make_loader.<locals>.timedelta_loader", "SecondsTimedeltaProvider._make_loader",
         {"": lambda m: m.SecondsTimedeltaProvider()},
@@ -171,3 +184,98 @@ for _qual, _entry, _recv, _ctor in [
                    "culprit": "implies(raised, is_err(exc, loader, data))"},
              requires=["res_is_bytes(loader)"], stubs={"result": lambda x: repr(x).encode()},
              cover=["returned", "raised"])
+
+
+# =====================================================================================================================
+# Scalar DUMPERS.  C02: "dump returns exactly the documented outer form" (specific-types-behavior.rst: date / time /
+# datetime -> isoformat string, timedelta -> seconds, bytes-likes -> base64 string, Decimal / Fraction / complex -> str,
+# re.Pattern -> its pattern, int / float / str / bool / None as is).  C01: the clause `inverse` applies the SAME spec
+# function the loader's `value` clause is stated with to the dumped form and demands the datum back, so
+# load(dump(x)) == x is a two-line lemma over the two contracts (loader.value: load(y) == S(y); dumper.inverse: S(dump(x)) == x).
+# The argument is a datum of D restricted by `requires` to the cells of the dumped type (a dumper is only ever invoked
+# on values of its type); the stdlib methods are probed per live cell like every other built-in.
+# =====================================================================================================================
+DCP = {"returns": ["C02"], "form": ["C02"], "inverse": ["C01"], "loadable": ["C01", "C02"], "modifies-nothing": ["C20"]}
+DPROPS = ["C01", "C02", "C20"]
+
+
+def dump_closure(qual, entry, receivers, typ, post, name=None, consts=None, env=None, notes=()):
+    contract(F, qual, name=name, props=DPROPS, params={"data": "D"}, via=Via(entry, receivers),
+             requires=[f"py(lambda d: {typ}, data)"], post={"returns": "returned", **post}, clause_props=DCP,
+             cover=["returned"], consts=dict(consts or {}), env=env, notes=list(notes))
+
+
+def dump_returned(qual, label, recv, typ, post, consts=None, extra_params=None):
+    """the unit is a method that hands out the dumper (a stdlib method or a repository function); second stage: the dumper
+    applied to a datum of its type"""
+    params = {"self": ("constf", recv)}
+    params.update(extra_params or {})
+    contract(F, qual, name=f"{F}:{qual}[{label}]", props=DPROPS, params=params, then={"data": "D"},
+             then_requires=[f"py(lambda d: {typ}, data)"], post={"returns": "returned", **post}, clause_props=DCP,
+             cover=["returned"], consts=dict(consts or {}), frame=True)
+
+
+B64 = {"form": "implies(returned, py(lambda r: type(r) is str, result))",
+       "loadable": "implies(returned, py(lambda r: type(r) is str and r.isascii() and bool(B64_PATTERN.fullmatch(r.encode('ascii'))), result))"}
+dump_closure("_Base64DumperMixin._make_dumper.<locals>.bytes_base64_dumper", "_Base64DumperMixin._make_dumper",
+             {"bytes": lambda m: m.BytesBase64Provider(), "bytearray": lambda m: m.BytearrayBase64Provider()},
+             "type(d) in (bytes, bytearray)",
+             {**B64, "inverse": "implies(returned, py(lambda d, r: a2b_base64(r.encode('ascii')) == bytes(d), data, result))"})
+dump_closure("BytesIOBase64Provider._make_dumper.<locals>.bytes_io_base64_dumper", "BytesIOBase64Provider._make_dumper",
+             {"": lambda m: m.BytesIOBase64Provider()}, "type(d) is BytesIO",
+             {**B64, "inverse": "implies(returned, py(lambda d, r: a2b_base64(r.encode('ascii')) == d.getvalue(), data, result))"})
+
+for _lab, _fmt, _back in [("ymd", "%Y-%m-%d", "datetime(d.year, d.month, d.day)"),
+                          ("full", "%Y-%m-%dT%H:%M:%S.%f", "d")]:
+    dump_closure("DatetimeFormatProvider._make_dumper.<locals>.datetime_format_dumper", "DatetimeFormatProvider._make_dumper",
+                 {_lab: (lambda m, _fmt=_fmt: m.DatetimeFormatProvider(_fmt))}, "type(d) is datetime and d.tzinfo is None",
+                 {"form": "implies(returned, py(lambda r: type(r) is str, result))",
+                  "inverse": f"implies(returned, py(lambda d, r, f: datetime.strptime(r, f) == {_back}, data, result, fmt))"},
+                 name=f"{F}:DatetimeFormatProvider._make_dumper.<locals>.datetime_format_dumper[{_lab}]")
+
+for _tzl, _env in TZ_AXIS.items():
+    for _lab, _tz in [("utc", timezone.utc), ("local", None)]:
+        dump_closure("DatetimeTimestampProvider._make_dumper.<locals>.datetime_timestamp_dumper",
+                     "DatetimeTimestampProvider._make_dumper",
+                     {_lab: (lambda m, _tz=_tz: m.DatetimeTimestampProvider(_tz))},
+                     "type(d) is datetime and (d.tzinfo is None) == (TZ is None)",
+                     {"form": "implies(returned, py(lambda r: type(r) is float, result))",
+                      "inverse": "implies(returned, py(lambda d, r: datetime.fromtimestamp(r, tz=TZ) == d, data, result))"},
+                     name=f"{F}:DatetimeTimestampProvider._make_dumper.<locals>.datetime_timestamp_dumper[{_lab},{_tzl}]",
+                     consts={"TZ": _tz}, env=_env)
+    dump_closure("DateTimestampProvider._make_dumper.<locals>.date_timestamp_dumper", "DateTimestampProvider._make_dumper",
+                 {_tzl: lambda m: m.DateTimestampProvider()}, "type(d) is date",
+                 {"form": "implies(returned, py(lambda r: type(r) is float, result))",
+                  "inverse": "implies(returned, py(lambda d, r: utc_date(r) == d, data, result))"},
+                 name=f"{F}:DateTimestampProvider._make_dumper.<locals>.date_timestamp_dumper[{_tzl}]",
+                 consts={"utc_date": utc_date}, env=_env)
+
+for _lab, _cls in [("date", date), ("time", time), ("datetime", datetime)]:
+    dump_returned("IsoFormatProvider._make_dumper", _lab, (lambda m, _cls=_cls: m.IsoFormatProvider(_cls)), "type(d) is CLS",
+                  {"form": "implies(returned, py(lambda r: type(r) is str, result))",
+                   "inverse": "implies(returned, py(lambda d, r: same(CLS.fromisoformat(r), d), data, result))"},
+                  consts={"CLS": _cls})
+
+dump_returned("SecondsTimedeltaProvider._make_dumper", "", lambda m: m.SecondsTimedeltaProvider(), "type(d) is timedelta",
+              {"form": "implies(returned, py(lambda r: type(r) in (float, int), result))",
+               "inverse": "implies(returned, py(lambda d, r: abs(timedelta(seconds=r) - d) <= timedelta(microseconds=1), data, result))"})
+
+_NOREQ = {"mediator": ("const", None), "request": ("const", None)}
+for _lab, _ctor, _typ in [("decimal", Decimal, "type(d) is Decimal"), ("fraction", Fraction, "type(d) is Fraction"),
+                          ("complex", complex, "type(d) is complex")]:
+    dump_returned("ScalarProvider.provide_dumper", _lab, (lambda m, _lab=_lab: getattr(m, _lab.upper() + "_PROVIDER")), _typ,
+                  {"form": "implies(returned, py(lambda r: type(r) is str, result))",
+                   "inverse": "implies(returned, py(lambda d, r: same(CTOR(r), d), data, result))"},
+                  consts={"CTOR": _ctor}, extra_params=_NOREQ)
+for _lab, _typ in [("int", "type(d) is int"), ("float", "type(d) is float"), ("str", "type(d) is str"), ("bool", "type(d) is bool")]:
+    dump_returned("ScalarProvider.provide_dumper", _lab, (lambda m, _lab=_lab: getattr(m, _lab.upper() + "_PROVIDER")), _typ,
+                  {"form": "implies(returned, result is data)", "inverse": "implies(returned, result is data)"},
+                  extra_params=_NOREQ)
+dump_returned("NoneProvider.provide_dumper", "", lambda m: m.NoneProvider(), "d is None",
+              {"form": "implies(returned, result is None)", "inverse": "implies(returned, result is None)"}, extra_params=_NOREQ)
+
+contract(F, "_regex_dumper", props=DPROPS, params={"data": "D"}, requires=["py(lambda d: isinstance(d, re.Pattern), data)"],
+         post={"returns": "returned",
+               "form": "implies(returned, py(lambda r: type(r) is str, result))",
+               "inverse": "implies(returned, py(lambda d, r: re.compile(r).pattern == d.pattern, data, result))"},
+         clause_props=DCP, cover=["returned"], native=lambda mod, label: mod._regex_dumper)
